@@ -330,6 +330,23 @@ Theorem C11_PathsOf_wrap : forall keys from h dedup,
 Proof. exact PathsOf_spec_wrap. Qed.
 Print Assumptions C11_PathsOf_wrap.
 
+(** locality: FromStr32 depends only on the bytes under the window and on where the string ends -
+    whole leading bytes can be dropped (shifting the window) and trailing bytes behind a window that
+    lies inside the string can be dropped; no bound on the length of [pre] or [post].  (The op
+    bitmap.FromStr32/big judges calls on 32..40 MB strings through this theorem.) *)
+Theorem C11_FromStr32_local : forall pre t post f w,
+  bytes_ok (pre ++ t ++ post) -> 0 <= f -> 0 <= w <= 32 ->
+  8 * zlen pre + f + w + 7 < 2 ^ 31 -> 8 * zlen (pre ++ t ++ post) < 2 ^ 31 ->
+  (post = [] \/ f + w <= 8 * zlen t) ->
+  FromStr32 (pre ++ t ++ post) (8 * zlen pre + f) (8 * zlen pre + f + w) = FromStr32 t f (f + w).
+Proof. exact FromStr32_local. Qed.
+Print Assumptions C11_FromStr32_local.
+
+Example C11_local_nonvacuous :
+  FromStr32 ([1; 2; 3] ++ [97; 98; 99] ++ [4; 5]) (8 * 3 + 4) (8 * 3 + 4 + 16) = Some (16, 0x1626) /\
+  FromStr32 [97; 98; 99] 4 (4 + 16) = Some (16, 0x1626) /\ 4 + 16 <= 8 * zlen [97; 98; 99].
+Proof. repeat apply conj; vm_compute; try reflexivity; discriminate. Qed.
+
 (** non-vacuity: from = MaxInt32 and MaxInt32-8 with w = 32 (the sum wraps to a negative tobit);
     and a key list longer than 1024 keys (PathsOf is about any number of keys) *)
 Example C11_far_nonvacuous :
